@@ -9,7 +9,7 @@ const char *verif_rule =
     "tape -> 1..2 UDP client sessions (own scripted peer each) with ack_timeout in [1.000,8.000], ack_random_factor in [1.000,3.000], "
     "max_retransmit 1..6 (the API ignores 0), libcoap PRNG seeded from the tape; 1..4 CON messages (GET requests or empty CON pings) submitted at generated times; "
     "per wire datagram a fate (deliver / drop / duplicate / delay up to 2x timeout); per copy received the peer answers ACK / RST / nothing / "
-    "ACK on the other session (same mid), each with its own delay; in about a quarter of the cases each (read from the end of the tape) the application "
+    "ACK on the other session (same mid), each with its own delay; in about a third of the longer tapes the context also has a listening endpoint whose server sessions (strangers sending NON requests) idle out after 1..20 s while the messages are retransmitted; in about a quarter of the cases each (read from the end of the tape) the application "
     "declares one session disconnected at a generated time (its messages end with one NACK(NOT_DELIVERABLE) each) and/or one copy of a request is answered by "
     "a separate NON response instead of an ACK (libcoap removes the request by token; only its schedule up to there is judged) - the messages of the other "
     "session keep their schedule. The world sleeps exactly as long as coap_io_prepare_epoll() reports. "
@@ -265,6 +265,31 @@ int verif_case(const uint8_t *tape, size_t tlen, Info *info) {
       m.submit_t = w.now;
       cs.msgs.push_back(m);
     });
+  }
+  // (end of the tape) the context is a server as well: strangers send it Non-confirmable requests now and then, and their sessions idle out
+  // (session timeout of a few seconds) while the Confirmable messages above are being retransmitted - further timers next to the send queue
+  if (!sweep && tb2.chance(90)) {
+    Addr la = Addr::v4(10, 0, 9, 1, 5683);
+    coap_address_t lac;
+    la.to_coap(&lac);
+    if (coap_new_endpoint(ctx, &lac, COAP_PROTO_UDP)) {
+      coap_context_set_session_timeout(ctx, tb2.range(1, 20));
+      unsigned nstr = tb2.range(1, 3);
+      for (unsigned i = 0; i < nstr; i++) {
+        Peer *sp = w.add_peer(Addr::v4(10, 0, 8, (uint8_t)(i + 1), (uint16_t)(50000 + i)));
+        unsigned nrq = tb2.range(1, 3);
+        uint32_t at = 0;
+        for (unsigned k = 0; k < nrq; k++) {
+          at += tb2.pick({1, 1}) ? tb2.range(0, 5000) : tb2.range(5000, 40000);
+          ref::Msg g;
+          g.type = 1; g.code = 1; g.mid = (uint16_t)(0x5000 + 16 * i + k); g.token = {(uint8_t)(0xA0 + i), (uint8_t)k};
+          g.opts.push_back(ref::Opt{11, {'x'}});
+          std::vector<uint8_t> bytes = ref::encode(g, ref::F_UDP);
+          w.at_world(w.now + at, [&w, sp, la, bytes]() { w.peer_send(sp, la, bytes); });
+        }
+      }
+      info->label("server-sessions-idling-out-beside-the-send-queue");
+    }
   }
   if (cancel_which >= 0) w.at(w.now + cancel_at, [&]() {
     // the application declares the session of that submission disconnected: its messages in flight end with one NACK each, the messages
